@@ -33,9 +33,9 @@ type Case struct {
 	FirstChan int   `json:"firstchan"`
 	NChan     int   `json:"nchan"`
 	Idx       int   `json:"idx"`
-	Demux     bool  `json:"demux,omitempty"` // abaco: go through packets + AbacoGroup.demuxData (all channels of the group)
-	PF        int   `json:"pf,omitempty"`    // abaco demux: frames per packet; roach stream: samples per packet
-	Stream    bool  `json:"stream,omitempty"` // roach: go through UDP packets + RoachDevice.readPackets (all channels)
+	Demux     bool  `json:"demux,omitempty"`    // abaco: go through packets + AbacoGroup.demuxData (all channels of the group)
+	PF        int   `json:"pf,omitempty"`       // abaco demux: frames per packet; roach stream: samples per packet
+	Stream    bool  `json:"stream,omitempty"`   // roach: go through UDP packets + RoachDevice.readPackets (all channels)
 	Resample  bool  `json:"resample,omitempty"` // roach: the device is sampled, used, and sampled again before the run
 	// kind "abacosrc": ONE AbacoSource object goes through several rounds of Configure -> Sample -> data;
 	// the fields above describe the first round, More the following ones (same channel group)
@@ -43,7 +43,9 @@ type Case struct {
 	// the stream and the call boundaries (chunk lengths; the rest of the stream is a final call)
 	Xs   []int `json:"xs"`
 	Cuts []int `json:"cuts"`
-	Note string `json:"note,omitempty"`
+	// compact form of a long stream: [count, value] runs, appended to Xs when the case is run
+	Runs [][2]int `json:"runs,omitempty"`
+	Note string   `json:"note,omitempty"`
 }
 
 // Round is one further Configure -> Sample -> data round of an "abacosrc" case.
@@ -560,6 +562,50 @@ func longReset(r *lib.Rng, id int64, kind string, biasOn bool, ps int64) Case {
 	return c
 }
 
+// wideReset: NewPhaseUnwrapper called directly with a reset interval at or beyond 2^16 (legal: resetAfter is an
+// int) and a stream that stays away from home for resetAfter-1 .. resetAfter+2 samples, cut into uneven calls.
+// The stream is 7e4 .. 2e5 samples long and is carried as runs of equal raw words.
+func wideReset(r *lib.Rng, id int64, ra int, minExtra int) Case {
+	c := Case{ID: id, Kind: "api", En: true, RA: int64(ra), PS: int64(r.Pick([]int{1, -1})), Inv: r.Chance(1, 4),
+		Note: fmt.Sprintf("off-home stretch around the reset interval %d (wider than 16 bits)", ra)}
+	fd := [][2]int{{16, 4}, {14, 2}, {16, 2}, {13, 2}}[r.Intn(4)]
+	c.F, c.D = uint64(fd[0]), uint64(fd[1])
+	q := 1 << (fd[0] - fd[1])
+	c.Bias = int64(r.Pick([]int{0, q * 38 / 100, -(q * 38 / 100), q / 2, -(q / 2)})) << c.D
+	ci := c.info()
+	v := r.Intn(ci.q)
+	c.Runs = append(c.Runs, [2]int{r.Range(1, 3), ci.raw(r, v)})
+	jump := ci.upper + 1 + r.Intn(5)
+	if r.Bool() {
+		jump = ci.lower - 1 - r.Intn(5)
+	}
+	v += jump
+	hold := ra + r.Range(minExtra, 2) // minExtra = 1: the automatic reset is certainly due
+	for left := hold; left > 0; {
+		k := r.Pick([]int{1, 3, 1000, 20000, 65536, hold})
+		if k > left {
+			k = left
+		}
+		c.Runs = append(c.Runs, [2]int{k, ci.raw(r, v)}) // same prepared value, other dropped bits
+		left -= k
+	}
+	if r.Bool() {
+		v -= jump
+	}
+	c.Runs = append(c.Runs, [2]int{r.Range(1, 4), ci.raw(r, v)})
+	// once more: leave home and stay away, this time not long enough for a reset
+	c.Runs = append(c.Runs, [2]int{r.Range(2, 3000), ci.raw(r, v+jump)})
+	switch r.Intn(3) {
+	case 0:
+		c.Cuts = []int{7, 65530, 3, ra / 3}
+	case 1:
+		c.Cuts = []int{ra + r.Range(-1, 2)}
+	default:
+		c.Cuts = []int{1, 0, 65535, 1, 65536, 12345}
+	}
+	return c
+}
+
 func corpus() []Case {
 	sh := func(d uint, vs ...int) []int {
 		out := make([]int, len(vs))
@@ -627,6 +673,19 @@ func gen(seed uint64, tier string) []interface{} {
 	id++
 	out = append(out, longReset(rl.Fork(), id, "abaco", rl.Bool(), int64(rl.Pick([]int{1, -1}))))
 	id++
+	// reset intervals around and beyond 2^16
+	wide := []int{65535 + rl.Intn(2), rl.Pick([]int{65536, 70000})}
+	if tier == "thorough" {
+		wide = []int{65534, 65535, 65536, 65537, 70000, 100000, 131072, 200000}
+	}
+	for i, ra := range wide {
+		minExtra := -1
+		if i%2 == 0 {
+			minExtra = 1
+		}
+		out = append(out, wideReset(rl.Fork(), id, ra, minExtra))
+		id++
+	}
 	if tier == "thorough" {
 		for i := 0; i < 12; i++ {
 			out = append(out, longReset(rl.Fork(), id, []string{"roach", "abaco"}[rl.Intn(2)], rl.Bool(), int64(rl.Pick([]int{1, -1}))))
@@ -642,6 +701,38 @@ type observed struct {
 	Built  string  `json:"built"` // ok | panic | rejected
 	Single []int   `json:"single,omitempty"`
 	Split  [][]int `json:"split,omitempty"`
+	// long outputs are recorded run-length encoded ([count, value]) with the lengths of the calls' outputs
+	SingleRuns [][2]int `json:"single_runs,omitempty"`
+	SplitRuns  [][2]int `json:"split_runs,omitempty"`
+	SplitLens  []int    `json:"split_lens,omitempty"`
+}
+
+func rleOf(xs []int) [][2]int {
+	var out [][2]int
+	for i := 0; i < len(xs); {
+		j := i
+		for j < len(xs) && xs[j] == xs[i] {
+			j++
+		}
+		out = append(out, [2]int{j - i, xs[i]})
+		i = j
+	}
+	return out
+}
+
+// compact replaces long output arrays by their run-length encoding (for impl.jsonl / replay files only).
+func (o observed) compact() observed {
+	if len(o.Single) < 5000 {
+		return o
+	}
+	c := observed{Built: o.Built, SingleRuns: rleOf(o.Single)}
+	var all []int
+	for _, s := range o.Split {
+		c.SplitLens = append(c.SplitLens, len(s))
+		all = append(all, s...)
+	}
+	c.SplitRuns = rleOf(all)
+	return c
 }
 
 func (c *Case) construct() (u *dastard.PhaseUnwrapper, built string, err error) {
@@ -878,6 +969,12 @@ func runCase(c Case) (lib.Result, error) {
 	hc := c
 	hc.ID, hc.Note = 0, ""
 	hash := lib.Hash(hc)
+	for _, run := range c.Runs {
+		for k := 0; k < run[0] && len(c.Xs) < 1<<20; k++ {
+			c.Xs = append(c.Xs, run[1])
+		}
+	}
+	c.Runs = nil
 	if c.Kind != "abacosrc" {
 		res, _, err := runRound(c, nil)
 		res.Hash = hash
@@ -1006,7 +1103,8 @@ func runRound(c Case, src *dastard.VerifC12AbacoSource) (lib.Result, observed, e
 		obsTerm = fmt.Sprintf("(ok %s %s)", zlist(ob.Single), zlistlist(ob.Split))
 	}
 	res.Term = fmt.Sprintf("%s %s %s", c.kindTerm(), zlistlist(chunks), obsTerm)
-	res.Impl = ob
+	res.Impl = ob.compact()
+	res.Heavy = len(c.Xs) >= 50000
 
 	// tags / non-triviality (bookkeeping only; the verdict is computed in Coq)
 	if len(chunks) >= 2 {
@@ -1075,6 +1173,9 @@ func runRound(c Case, src *dastard.VerifC12AbacoSource) (lib.Result, observed, e
 	}
 	if len(c.Xs) >= 10000 {
 		tags["long-stream"] = true
+	}
+	if ci.ok && ci.ra >= 65535 {
+		tags["reset-interval-beyond-16-bits"] = true
 	}
 	res.NonTrivial = built == "ok" && ci.ok && wraps > 0 && len(chunks) >= 2
 	for t := range tags {
